@@ -392,6 +392,11 @@ def backtracking_shapes() -> list[str]:
     """adversarial-for-backtracking texts for every regex-driven scanner: an opening quote followed by escapes and never
     closed, and long runs of the characters the alternations of each pattern overlap on."""
     out = []
+    # quoted cookie values made of octal escapes: unterminated, or closed and followed by junk (a pattern whose escape
+    # alternatives overlap backtracks 2**n on these)
+    for k in (20, 24, 30, 40, 64, 80):
+        octs = "\\101" * k
+        out += [f'session="{octs}', f'a=b; session="{octs}; c=d', f'session="{octs}"x', f'session="{octs}"x; c=d', f'session="{"\\377\\000" * (k // 2)}', f'k="{octs}\\']
     for k in (30, 40, 64, 80):
         bs, esc, ws = "\\" * k, '\\"' * k, " " * k
         out += [f'session="{bs}', f'session="{esc}', f'a=b; session="{bs}x', f'session="{bs}; b=c', f'session = "{esc}\\', f'k="{"a" * k}{bs}',
